@@ -23,6 +23,7 @@ func init() {
 			return
 		}
 		checkC20(r, prog, g)
+		checkTableImmutable(r, prog, "c20")
 		// the table is interpreted by the engine that follows it in grammar.go: the invariants of that engine the table's
 		// meaning rests on (a reference means the rule of that name, a class means unicode's table of that name, …)
 		r.importing = "C15"
@@ -61,6 +62,8 @@ func init() {
 		if a15 := FindAnchors(prog); len(a15.Missing) == 0 {
 			r.importing = "C10"
 			checkCreateEvaluator(r, prog, a15, ga, "c10") // CreateEvaluator accepts exactly what the parser accepts: it parses the text it is given, unmodified
+			r.importing = "C18"
+			checkGetOpts(r, prog, a15, "c18") // … and with no budget unless one is asked for
 		}
 		r.importing = ""
 		r.Technique = "translation validation peg↔table (imported from C20) + PEG well-formedness analyses on the rule table (undefined/duplicate/unreachable rules, left recursion, nullable repetition, label scope), entry anchoring, dispatch exhaustiveness, result-type inference for action type assertions, keyword/identifier boundary via FOLLOW sets"
@@ -90,6 +93,8 @@ func init() {
 			checkCreateEvaluator(r, prog, a16, ga, "c10") // what is evaluated is the parse of exactly the text given, every time
 			r.importing = "C13"
 			checkASTIntegrity(r, prog, a16, "c13") // and the tree evaluated is the tree parsed: literals are not rewritten afterwards
+			r.importing = "C18"
+			checkGetOpts(r, prog, a16, "c18") // a rendering of any length is read back: no budget unless one is asked for
 		}
 		r.importing = ""
 		r.Technique = "grammar analyses on the rule table: operator-exposure stratification, double-negation fold (typed AST of the action), strconv.Unquote of the whole match, choice shadowing by FIRST-set overlap, keyword boundary by FOLLOW sets"
